@@ -8,6 +8,144 @@ From GVGen Require Import GenBodies GenInventory GenTables.
 Import ListNotations.
 Open Scope string_scope.
 
+Example O02_body_goose_Ctx_goBuiltin :
+  has_body func_bodies "goose.Ctx.goBuiltin"
+    "func(e *ast.Ident) bool"
+    "{ s, ok := ctx.info.Uses[e] if !ok { return false } return s.Parent() == types.Universe }" = true.
+Proof. vm_compute. reflexivity. Qed.
+
+Example O02_body_goose_isIdent :
+  has_body func_bodies "goose.isIdent"
+    "func(e ast.Expr, ident string) bool"
+    "{ i, ok := getIdent(e) return ok && i == ident }" = true.
+Proof. vm_compute. reflexivity. Qed.
+
+Example O02_body_goose_getIdent :
+  has_body func_bodies "goose.getIdent"
+    "func(e ast.Expr) (ident string, ok bool)"
+    "{ if ident, ok := e.(*ast.Ident); ok { return ident.Name, true } return """", false }" = true.
+Proof. vm_compute. reflexivity. Qed.
+
+Example O02_body_goose_Ctx_packageMethod :
+  has_body func_bodies "goose.Ctx.packageMethod"
+    "func(f *ast.SelectorExpr, call *ast.CallExpr) coq.Expr"
+    "{ args := call.Args if isIdent(f.X, ""filesys"") { return ctx.newCoqCall(""FS.""+toInitialLower(f.Sel.Name), args) } if isIdent(f.X, ""disk"") { return ctx.newCoqCall(""disk.""+f.Sel.Name, args) } if isIdent(f.X, ""machine"") || isIdent(f.X, ""primitive"") { switch f.Sel.Name { case ""UInt64Get"", ""UInt64Put"", ""UInt32Get"", ""UInt32Put"": return ctx.newCoqCall(f.Sel.Name, args) case ""RandomUint64"": return ctx.newCoqCall(""rand.RandomUint64"", args) case ""UInt64ToString"": return ctx.newCoqCall(""uint64_to_string"", args) case ""Linearize"": return coq.GallinaIdent(""Linearize"") case ""Assume"": return ctx.newCoqCall(""control.impl.Assume"", args) case ""Assert"": return ctx.newCoqCall(""control.impl.Assert"", args) case ""Exit"": return ctx.newCoqCall(""control.impl.Exit"", args) case ""WaitTimeout"": return ctx.newCoqCall(""lock.condWaitTimeout"", args) case ""Sleep"": return ctx.newCoqCall(""time.Sleep"", args) case ""TimeNow"": return ctx.newCoqCall(""time.TimeNow"", args) case ""MapClear"": return ctx.newCoqCall(""MapClear"", args) case ""NewProph"": return ctx.newCoqCall(""NewProph"", args) default: ctx.futureWork(f, ""unhandled call to primitive.%s"", f.Sel.Name) return coq.CallExpr{} } } if isIdent(f.X, ""log"") { switch f.Sel.Name { case ""Print"", ""Printf"", ""Println"": return coq.LoggingStmt{GoCall: ctx.printGo(call)} } } if isIdent(f.X, ""util"") && f.Sel.Name == ""DPrintf"" { return coq.NewCallExpr(coq.GallinaIdent(""util.DPrintf""), ctx.expr(args[0]), ctx.expr(args[1]), coq.UnitLiteral{}) } if isIdent(f.X, ""fmt"") { switch f.Sel.Name { case ""Println"", ""Printf"": return coq.LoggingStmt{GoCall: ctx.printGo(call)} } } if isIdent(f.X, ""sync"") { switch f.Sel.Name { case ""NewCond"": return ctx.newCoqCall(""lock.newCond"", args) } } pkg := f.X.(*ast.Ident) return ctx.newCoqCallTypeArgs( coq.GallinaIdent(coq.PackageIdent{Package: pkg.Name, Ident: f.Sel.Name}.Coq(true)), ctx.typeList(call, ctx.info.Instances[f.Sel].TypeArgs), args) }" = true.
+Proof. vm_compute. reflexivity. Qed.
+
+Example O02_body_goose_Ctx_selectorMethod :
+  has_body func_bodies "goose.Ctx.selectorMethod"
+    "func(f *ast.SelectorExpr, call *ast.CallExpr) coq.Expr"
+    "{ args := call.Args selectorType, ok := ctx.getType(f.X) if !ok { return ctx.packageMethod(f, call) } if isLockRef(selectorType) { return ctx.lockMethod(f) } if isCFMutexRef(selectorType) { return ctx.lockMethod(f) } if isCondVar(selectorType) { return ctx.condVarMethod(f) } if isWaitGroup(selectorType) { return ctx.waitGroupMethod(f, args) } if isProphId(selectorType) { return ctx.prophIdMethod(f, args) } if isDisk(selectorType) { method := fmt.Sprintf(""disk.%s"", f.Sel) return ctx.newCoqCall(method, call.Args) } deref := selectorType if pt, ok := selectorType.(*types.Pointer); ok { deref = pt.Elem() } switch deref.Underlying().(type) { case *types.Interface: interfaceInfo, ok := ctx.getInterfaceInfo(selectorType) if ok { callArgs := append([]ast.Expr{f.X}, args...) return ctx.newCoqCall( coq.InterfaceMethodName(interfaceInfo.name, f.Sel.Name), callArgs) } case *types.Struct: structInfo, ok := ctx.getStructInfo(selectorType) if !ok { panic(""expected struct"") } for _, name := range structInfo.fields() { if f.Sel.Name == name { return ctx.newCoqCallWithExpr( ctx.structSelector(structInfo, f), args) } } } namedTy := deref.(*types.Named) tyName := ctx.qualifiedName(namedTy.Obj()) callArgs := append([]ast.Expr{f.X}, args...) fullName := coq.MethodName(tyName, f.Sel.Name) ctx.dep.addDep(fullName) coqCall := ctx.coqRecurFunc(fullName, f.Sel) return ctx.newCoqCallWithExpr(coqCall, callArgs) }" = true.
+Proof. vm_compute. reflexivity. Qed.
+
+Example O02_body_goose_supportedMapKey :
+  has_body func_bodies "goose.supportedMapKey"
+    "func(keyTy types.Type) bool"
+    "{ if isString(keyTy) { return true } info, ok := getIntegerType(keyTy) if ok && info.isUint64() { return true } return false }" = true.
+Proof. vm_compute. reflexivity. Qed.
+
+Example O02_body_goose_Ctx_mapType :
+  has_body func_bodies "goose.Ctx.mapType"
+    "func(e *ast.MapType) coq.MapType"
+    "{ ty := ctx.typeOf(e).Underlying().(*types.Map) if !supportedMapKey(ty.Key()) { ctx.unsupported(e, ""maps must be from uint64 or string (not %v)"", e.Key) } return coq.MapType{Key: ctx.coqType(e.Key), Value: ctx.coqType(e.Value)} }" = true.
+Proof. vm_compute. reflexivity. Qed.
+
+Example O02_body_goose_Ctx_coqTypeOfType :
+  has_body func_bodies "goose.Ctx.coqTypeOfType"
+    "func(n ast.Node, t types.Type) coq.Type"
+    "{ if isProphId(t) { return coq.TypeIdent(""ProphIdT"") } switch t := t.(type) { case *types.Struct: ctx.unsupported(n, ""type for anonymous struct"") case *types.TypeParam: return coq.TypeIdent(t.Obj().Name()) case *types.Basic: switch t.Name() { case ""uint64"": return coq.TypeIdent(""uint64T"") case ""uint32"": return coq.TypeIdent(""uint32T"") case ""byte"": return coq.TypeIdent(""byteT"") case ""bool"": return coq.TypeIdent(""boolT"") case ""string"", ""untyped string"": return coq.TypeIdent(""stringT"") case ""int"": ctx.todo(n, ""basic type int (use uint64)"") default: ctx.unsupported(n, ""basic type %s"", t.Name()) } case *types.Pointer: return coq.PtrType{} case *types.Named: if t.Obj().Pkg() == nil { ctx.unsupported(n, ""unexpected built-in type %v"", t.Obj()) } if t.Obj().Pkg().Name() == ""filesys"" && t.Obj().Name() == ""File"" { return coq.TypeIdent(""fileT"") } if t.Obj().Pkg().Name() == ""disk"" && t.Obj().Name() == ""Disk"" { return coq.TypeIdent(""disk.Disk"") } if info, ok := ctx.getStructInfo(t); ok { ctx.dep.addDep(info.name) return coq.StructName(info.name) } if t.Obj().Pkg().Path() == ctx.pkgPath { ctx.dep.addDep(t.Obj().Name()) } return coq.TypeIdent(ctx.qualifiedName(t.Obj())) case *types.Slice: return coq.SliceType{Value: ctx.coqTypeOfType(n, t.Elem())} case *types.Map: return coq.MapType{Key: ctx.coqTypeOfType(n, t.Key()), Value: ctx.coqTypeOfType(n, t.Elem())} case *types.Signature: ctx.unsupported(n, ""function type"") case *types.Interface: return coq.InterfaceDecl{Name: """"} } ctx.nope(n, ""unknown type %v"", t) return nil }" = true.
+Proof. vm_compute. reflexivity. Qed.
+
+Example O02_body_goose_Ctx_coqType :
+  has_body func_bodies "goose.Ctx.coqType"
+    "func(e ast.Expr) coq.Type"
+    "{ switch e := e.(type) { case *ast.Ident: ctx.dep.addDep(e.Name) if ctx.isGlobalVar(e) && !ctx.isStruct(e) { return coq.TypeIdent(e.Name) } return ctx.coqTypeOfType(e, ctx.typeOf(e)) case *ast.MapType: return ctx.mapType(e) case *ast.SelectorExpr: return ctx.selectorExprType(e) case *ast.ArrayType: return ctx.arrayType(e) case *ast.StarExpr: return ctx.ptrType() case *ast.InterfaceType: if isEmptyInterface(e) { return coq.TypeIdent(""anyT"") } else { ctx.unsupported(e, ""non-empty interface"") } case *ast.Ellipsis: return coq.SliceType{Value: ctx.coqType(e.Elt)} case *ast.FuncType: return ctx.coqFuncType(e) case *ast.IndexExpr: ctx.todo(e, ""unsupported generic type instantiation"") default: ctx.unsupported(e, ""unexpected type expr"") } return coq.TypeIdent(""<type>"") }" = true.
+Proof. vm_compute. reflexivity. Qed.
+
+Example O02_body_goose_Ctx_returnType :
+  has_body func_bodies "goose.Ctx.returnType"
+    "func(results *ast.FieldList) coq.Type"
+    "{ if results == nil { return coq.TypeIdent(""unitT"") } rs := results.List for _, r := range rs { if len(r.Names) > 0 { ctx.unsupported(r, ""named returned value"") return coq.TypeIdent(""<invalid>"") } } var ts []coq.Type for _, r := range rs { if len(r.Names) > 0 { ctx.unsupported(r, ""named returned value"") return coq.TypeIdent(""<invalid>"") } ts = append(ts, ctx.coqType(r.Type)) } return coq.NewTupleType(ts) }" = true.
+Proof. vm_compute. reflexivity. Qed.
+
+Example O02_body_goose_Ctx_goStmt :
+  has_body func_bodies "goose.Ctx.goStmt"
+    "func(e *ast.GoStmt) coq.Expr"
+    "{ if len(e.Call.Args) > 0 { ctx.todo(e, ""go statement with parameters"") } return ctx.spawnExpr(e.Call.Fun) }" = true.
+Proof. vm_compute. reflexivity. Qed.
+
+Example O02_body_goose_Ctx_spawnExpr :
+  has_body func_bodies "goose.Ctx.spawnExpr"
+    "func(thread ast.Expr) coq.SpawnExpr"
+    "{ f, ok := thread.(*ast.FuncLit) if !ok { ctx.futureWork(thread, ""only function literal spawns are supported"") return coq.SpawnExpr{} } return coq.SpawnExpr{Body: ctx.blockStmt(f.Body, ExprValLocal)} }" = true.
+Proof. vm_compute. reflexivity. Qed.
+
+Example O02_body_goose_Ctx_paramList :
+  has_body func_bodies "goose.Ctx.paramList"
+    "func(fs *ast.FieldList) []coq.FieldDecl"
+    "{ var decls []coq.FieldDecl for _, f := range fs.List { if _, ok := f.Type.(*ast.Ellipsis); ok { ctx.unsupported(f, ""variadic parameter"") } ty := ctx.coqType(f.Type) for _, name := range f.Names { decls = append(decls, coq.FieldDecl{ Name: name.Name, Type: ty, }) } if len(f.Names) == 0 { decls = append(decls, coq.FieldDecl{ Name: """", Type: ty, }) } } return decls }" = true.
+Proof. vm_compute. reflexivity. Qed.
+
+Example O02_body_goose_Ctx_field :
+  has_body func_bodies "goose.Ctx.field"
+    "func(f *ast.Field) coq.FieldDecl"
+    "{ if len(f.Names) > 1 { ctx.futureWork(f, ""multiple fields for same type (split them up)"") return coq.FieldDecl{} } if len(f.Names) == 0 { ctx.unsupported(f, ""unnamed field/parameter"") return coq.FieldDecl{} } return coq.FieldDecl{ Name: f.Names[0].Name, Type: ctx.coqType(f.Type), } }" = true.
+Proof. vm_compute. reflexivity. Qed.
+
+Example O02_body_goose_Ctx_structFields :
+  has_body func_bodies "goose.Ctx.structFields"
+    "func(fs *ast.FieldList) []coq.FieldDecl"
+    "{ var decls []coq.FieldDecl for _, f := range fs.List { if len(f.Names) > 1 { ctx.futureWork(f, ""multiple fields for same type (split them up)"") return nil } if len(f.Names) == 0 { ctx.unsupported(f, ""unnamed (embedded) field"") return nil } ty := ctx.coqType(f.Type) decls = append(decls, coq.FieldDecl{ Name: f.Names[0].Name, Type: ty, }) } return decls }" = true.
+Proof. vm_compute. reflexivity. Qed.
+
+Example O02_body_goose_Ctx_typeDecl :
+  has_body func_bodies "goose.Ctx.typeDecl"
+    "func(doc *ast.CommentGroup, spec *ast.TypeSpec) coq.Decl"
+    "{ if spec.TypeParams != nil { ctx.futureWork(spec, ""generic named type (e.g. no generic structs)"") } switch goTy := spec.Type.(type) { case *ast.StructType: ty := coq.StructDecl{ Name: spec.Name.Name, } addSourceDoc(doc, &ty.Comment) ctx.addSourceFile(spec, &ty.Comment) ty.Fields = ctx.structFields(goTy.Fields) return ty case *ast.InterfaceType: ty := coq.InterfaceDecl{ Name: spec.Name.Name, } addSourceDoc(doc, &ty.Comment) ctx.addSourceFile(spec, &ty.Comment) ty.Methods = ctx.structFields(goTy.Methods) return ty default: if spec.Assign == 0 { return coq.TypeDef{ Name: spec.Name.Name, Type: ctx.coqType(spec.Type), } } else { return coq.AliasDecl{ Name: spec.Name.Name, Type: ctx.coqType(spec.Type), } } } }" = true.
+Proof. vm_compute. reflexivity. Qed.
+
+Example O02_body_goose_Ctx_constSpec :
+  has_body func_bodies "goose.Ctx.constSpec"
+    "func(spec *ast.ValueSpec) coq.ConstDecl"
+    "{ if len(spec.Names) > 1 { ctx.unsupported(spec, ""multiple declarations in one spec (split them up)"") } ident := spec.Names[0] cd := coq.ConstDecl{ Name: ident.Name, AddTypes: ctx.PkgConfig.TypeCheck, } addSourceDoc(spec.Comment, &cd.Comment) if len(spec.Values) == 0 { ctx.unsupported(spec, ""const with no value"") } val := spec.Values[0] cd.Val = ctx.expr(val) if spec.Type == nil { cd.Type = ctx.coqTypeOfType(spec, ctx.typeOf(val)) } else { cd.Type = ctx.coqType(spec.Type) } cd.Val = ctx.expr(spec.Values[0]) return cd }" = true.
+Proof. vm_compute. reflexivity. Qed.
+
+Example O02_body_goose_errorReporter_unsupported :
+  has_body func_bodies "goose.errorReporter.unsupported"
+    "func(n ast.Node, msg string, args ...interface{})"
+    "{ r.prefixed(""unsupported"", n, msg, args...) }" = true.
+Proof. vm_compute. reflexivity. Qed.
+
+Example O02_body_goose_errorReporter_todo :
+  has_body func_bodies "goose.errorReporter.todo"
+    "func(n ast.Node, msg string, args ...interface{})"
+    "{ r.prefixed(""todo"", n, msg, args...) }" = true.
+Proof. vm_compute. reflexivity. Qed.
+
+Example O02_body_goose_errorReporter_futureWork :
+  has_body func_bodies "goose.errorReporter.futureWork"
+    "func(n ast.Node, msg string, args ...interface{})"
+    "{ r.prefixed(""future"", n, msg, args...) }" = true.
+Proof. vm_compute. reflexivity. Qed.
+
+Example O02_body_goose_errorReporter_nope :
+  has_body func_bodies "goose.errorReporter.nope"
+    "func(n ast.Node, msg string, args ...interface{})"
+    "{ r.prefixed(""impossible(go)"", n, msg, args...) }" = true.
+Proof. vm_compute. reflexivity. Qed.
+
+Example O02_body_goose_errorReporter_noExample :
+  has_body func_bodies "goose.errorReporter.noExample"
+    "func(n ast.Node, msg string, args ...interface{})"
+    "{ r.prefixed(""impossible(no-examples)"", n, msg, args...) }" = true.
+Proof. vm_compute. reflexivity. Qed.
+
+Example O02_body_goose_errorReporter_prefixed :
+  has_body func_bodies "goose.errorReporter.prefixed"
+    "func(prefix string, n ast.Node, msg string, args ...interface{})"
+    "{ where := r.fset.Position(n.Pos()) what := r.printGo(n) formatted := fmt.Sprintf(msg, args...) err := &ConversionError{ Category: prefix, Message: formatted, GoCode: what, GooseCaller: getCaller(2), GoSrcFile: where.String(), Pos: n.Pos(), End: n.End(), } panic(gooseError{err: err}) }" = true.
+Proof. vm_compute. reflexivity. Qed.
+
 Example O02_inv_guard_sites :
   list_eqb guard_sites [
   "goose.Ctx.field | futureWork | ""multiple fields for same type (split them up)""";
@@ -119,142 +257,4 @@ Example O02_inv_guard_sites :
   "goose.Ctx.coqType | todo | ""unsupported generic type instantiation""";
   "goose.Ctx.coqType | unsupported | ""unexpected type expr"""
 ] = true.
-Proof. vm_compute. reflexivity. Qed.
-
-Example O02_body_goose_Ctx_goBuiltin :
-  has_body func_bodies "goose.Ctx.goBuiltin"
-    "func(e *ast.Ident) bool"
-    "{ s, ok := ctx.info.Uses[e] if !ok { return false } return s.Parent() == types.Universe }" = true.
-Proof. vm_compute. reflexivity. Qed.
-
-Example O02_body_goose_isIdent :
-  has_body func_bodies "goose.isIdent"
-    "func(e ast.Expr, ident string) bool"
-    "{ i, ok := getIdent(e) return ok && i == ident }" = true.
-Proof. vm_compute. reflexivity. Qed.
-
-Example O02_body_goose_getIdent :
-  has_body func_bodies "goose.getIdent"
-    "func(e ast.Expr) (ident string, ok bool)"
-    "{ if ident, ok := e.(*ast.Ident); ok { return ident.Name, true } return """", false }" = true.
-Proof. vm_compute. reflexivity. Qed.
-
-Example O02_body_goose_Ctx_packageMethod :
-  has_body func_bodies "goose.Ctx.packageMethod"
-    "func(f *ast.SelectorExpr, call *ast.CallExpr) coq.Expr"
-    "{ args := call.Args if isIdent(f.X, ""filesys"") { return ctx.newCoqCall(""FS.""+toInitialLower(f.Sel.Name), args) } if isIdent(f.X, ""disk"") { return ctx.newCoqCall(""disk.""+f.Sel.Name, args) } if isIdent(f.X, ""machine"") || isIdent(f.X, ""primitive"") { switch f.Sel.Name { case ""UInt64Get"", ""UInt64Put"", ""UInt32Get"", ""UInt32Put"": return ctx.newCoqCall(f.Sel.Name, args) case ""RandomUint64"": return ctx.newCoqCall(""rand.RandomUint64"", args) case ""UInt64ToString"": return ctx.newCoqCall(""uint64_to_string"", args) case ""Linearize"": return coq.GallinaIdent(""Linearize"") case ""Assume"": return ctx.newCoqCall(""control.impl.Assume"", args) case ""Assert"": return ctx.newCoqCall(""control.impl.Assert"", args) case ""Exit"": return ctx.newCoqCall(""control.impl.Exit"", args) case ""WaitTimeout"": return ctx.newCoqCall(""lock.condWaitTimeout"", args) case ""Sleep"": return ctx.newCoqCall(""time.Sleep"", args) case ""TimeNow"": return ctx.newCoqCall(""time.TimeNow"", args) case ""MapClear"": return ctx.newCoqCall(""MapClear"", args) case ""NewProph"": return ctx.newCoqCall(""NewProph"", args) default: ctx.futureWork(f, ""unhandled call to primitive.%s"", f.Sel.Name) return coq.CallExpr{} } } if isIdent(f.X, ""log"") { switch f.Sel.Name { case ""Print"", ""Printf"", ""Println"": return coq.LoggingStmt{GoCall: ctx.printGo(call)} } } if isIdent(f.X, ""util"") && f.Sel.Name == ""DPrintf"" { return coq.NewCallExpr(coq.GallinaIdent(""util.DPrintf""), ctx.expr(args[0]), ctx.expr(args[1]), coq.UnitLiteral{}) } if isIdent(f.X, ""fmt"") { switch f.Sel.Name { case ""Println"", ""Printf"": return coq.LoggingStmt{GoCall: ctx.printGo(call)} } } if isIdent(f.X, ""sync"") { switch f.Sel.Name { case ""NewCond"": return ctx.newCoqCall(""lock.newCond"", args) } } pkg := f.X.(*ast.Ident) return ctx.newCoqCallTypeArgs( coq.GallinaIdent(coq.PackageIdent{Package: pkg.Name, Ident: f.Sel.Name}.Coq(true)), ctx.typeList(call, ctx.info.Instances[f.Sel].TypeArgs), args) }" = true.
-Proof. vm_compute. reflexivity. Qed.
-
-Example O02_body_goose_Ctx_selectorMethod :
-  has_body func_bodies "goose.Ctx.selectorMethod"
-    "func(f *ast.SelectorExpr, call *ast.CallExpr) coq.Expr"
-    "{ args := call.Args selectorType, ok := ctx.getType(f.X) if !ok { return ctx.packageMethod(f, call) } if isLockRef(selectorType) { return ctx.lockMethod(f) } if isCFMutexRef(selectorType) { return ctx.lockMethod(f) } if isCondVar(selectorType) { return ctx.condVarMethod(f) } if isWaitGroup(selectorType) { return ctx.waitGroupMethod(f, args) } if isProphId(selectorType) { return ctx.prophIdMethod(f, args) } if isDisk(selectorType) { method := fmt.Sprintf(""disk.%s"", f.Sel) return ctx.newCoqCall(method, call.Args) } deref := selectorType if pt, ok := selectorType.(*types.Pointer); ok { deref = pt.Elem() } switch deref.Underlying().(type) { case *types.Interface: interfaceInfo, ok := ctx.getInterfaceInfo(selectorType) if ok { callArgs := append([]ast.Expr{f.X}, args...) return ctx.newCoqCall( coq.InterfaceMethodName(interfaceInfo.name, f.Sel.Name), callArgs) } case *types.Struct: structInfo, ok := ctx.getStructInfo(selectorType) if !ok { panic(""expected struct"") } for _, name := range structInfo.fields() { if f.Sel.Name == name { return ctx.newCoqCallWithExpr( ctx.structSelector(structInfo, f), args) } } } namedTy := deref.(*types.Named) tyName := ctx.qualifiedName(namedTy.Obj()) callArgs := append([]ast.Expr{f.X}, args...) fullName := coq.MethodName(tyName, f.Sel.Name) ctx.dep.addDep(fullName) coqCall := ctx.coqRecurFunc(fullName, f.Sel) return ctx.newCoqCallWithExpr(coqCall, callArgs) }" = true.
-Proof. vm_compute. reflexivity. Qed.
-
-Example O02_body_goose_supportedMapKey :
-  has_body func_bodies "goose.supportedMapKey"
-    "func(keyTy types.Type) bool"
-    "{ if isString(keyTy) { return true } info, ok := getIntegerType(keyTy) if ok && info.isUint64() { return true } return false }" = true.
-Proof. vm_compute. reflexivity. Qed.
-
-Example O02_body_goose_Ctx_mapType :
-  has_body func_bodies "goose.Ctx.mapType"
-    "func(e *ast.MapType) coq.MapType"
-    "{ ty := ctx.typeOf(e).Underlying().(*types.Map) if !supportedMapKey(ty.Key()) { ctx.unsupported(e, ""maps must be from uint64 or string (not %v)"", e.Key) } return coq.MapType{Key: ctx.coqType(e.Key), Value: ctx.coqType(e.Value)} }" = true.
-Proof. vm_compute. reflexivity. Qed.
-
-Example O02_body_goose_Ctx_coqTypeOfType :
-  has_body func_bodies "goose.Ctx.coqTypeOfType"
-    "func(n ast.Node, t types.Type) coq.Type"
-    "{ if isProphId(t) { return coq.TypeIdent(""ProphIdT"") } switch t := t.(type) { case *types.Struct: ctx.unsupported(n, ""type for anonymous struct"") case *types.TypeParam: return coq.TypeIdent(t.Obj().Name()) case *types.Basic: switch t.Name() { case ""uint64"": return coq.TypeIdent(""uint64T"") case ""uint32"": return coq.TypeIdent(""uint32T"") case ""byte"": return coq.TypeIdent(""byteT"") case ""bool"": return coq.TypeIdent(""boolT"") case ""string"", ""untyped string"": return coq.TypeIdent(""stringT"") case ""int"": ctx.todo(n, ""basic type int (use uint64)"") default: ctx.unsupported(n, ""basic type %s"", t.Name()) } case *types.Pointer: return coq.PtrType{} case *types.Named: if t.Obj().Pkg() == nil { ctx.unsupported(n, ""unexpected built-in type %v"", t.Obj()) } if t.Obj().Pkg().Name() == ""filesys"" && t.Obj().Name() == ""File"" { return coq.TypeIdent(""fileT"") } if t.Obj().Pkg().Name() == ""disk"" && t.Obj().Name() == ""Disk"" { return coq.TypeIdent(""disk.Disk"") } if info, ok := ctx.getStructInfo(t); ok { return coq.StructName(info.name) } return coq.TypeIdent(ctx.qualifiedName(t.Obj())) case *types.Slice: return coq.SliceType{Value: ctx.coqTypeOfType(n, t.Elem())} case *types.Map: return coq.MapType{Key: ctx.coqTypeOfType(n, t.Key()), Value: ctx.coqTypeOfType(n, t.Elem())} case *types.Signature: ctx.unsupported(n, ""function type"") case *types.Interface: return coq.InterfaceDecl{Name: """"} } ctx.nope(n, ""unknown type %v"", t) return nil }" = true.
-Proof. vm_compute. reflexivity. Qed.
-
-Example O02_body_goose_Ctx_coqType :
-  has_body func_bodies "goose.Ctx.coqType"
-    "func(e ast.Expr) coq.Type"
-    "{ switch e := e.(type) { case *ast.Ident: ctx.dep.addDep(e.Name) if ctx.isGlobalVar(e) && !ctx.isStruct(e) { return coq.TypeIdent(e.Name) } return ctx.coqTypeOfType(e, ctx.typeOf(e)) case *ast.MapType: return ctx.mapType(e) case *ast.SelectorExpr: return ctx.selectorExprType(e) case *ast.ArrayType: return ctx.arrayType(e) case *ast.StarExpr: return ctx.ptrType() case *ast.InterfaceType: if isEmptyInterface(e) { return coq.TypeIdent(""anyT"") } else { ctx.unsupported(e, ""non-empty interface"") } case *ast.Ellipsis: return coq.SliceType{Value: ctx.coqType(e.Elt)} case *ast.FuncType: return ctx.coqFuncType(e) case *ast.IndexExpr: ctx.todo(e, ""unsupported generic type instantiation"") default: ctx.unsupported(e, ""unexpected type expr"") } return coq.TypeIdent(""<type>"") }" = true.
-Proof. vm_compute. reflexivity. Qed.
-
-Example O02_body_goose_Ctx_returnType :
-  has_body func_bodies "goose.Ctx.returnType"
-    "func(results *ast.FieldList) coq.Type"
-    "{ if results == nil { return coq.TypeIdent(""unitT"") } rs := results.List for _, r := range rs { if len(r.Names) > 0 { ctx.unsupported(r, ""named returned value"") return coq.TypeIdent(""<invalid>"") } } var ts []coq.Type for _, r := range rs { if len(r.Names) > 0 { ctx.unsupported(r, ""named returned value"") return coq.TypeIdent(""<invalid>"") } ts = append(ts, ctx.coqType(r.Type)) } return coq.NewTupleType(ts) }" = true.
-Proof. vm_compute. reflexivity. Qed.
-
-Example O02_body_goose_Ctx_goStmt :
-  has_body func_bodies "goose.Ctx.goStmt"
-    "func(e *ast.GoStmt) coq.Expr"
-    "{ if len(e.Call.Args) > 0 { ctx.todo(e, ""go statement with parameters"") } return ctx.spawnExpr(e.Call.Fun) }" = true.
-Proof. vm_compute. reflexivity. Qed.
-
-Example O02_body_goose_Ctx_spawnExpr :
-  has_body func_bodies "goose.Ctx.spawnExpr"
-    "func(thread ast.Expr) coq.SpawnExpr"
-    "{ f, ok := thread.(*ast.FuncLit) if !ok { ctx.futureWork(thread, ""only function literal spawns are supported"") return coq.SpawnExpr{} } return coq.SpawnExpr{Body: ctx.blockStmt(f.Body, ExprValLocal)} }" = true.
-Proof. vm_compute. reflexivity. Qed.
-
-Example O02_body_goose_Ctx_paramList :
-  has_body func_bodies "goose.Ctx.paramList"
-    "func(fs *ast.FieldList) []coq.FieldDecl"
-    "{ var decls []coq.FieldDecl for _, f := range fs.List { if _, ok := f.Type.(*ast.Ellipsis); ok { ctx.unsupported(f, ""variadic parameter"") } ty := ctx.coqType(f.Type) for _, name := range f.Names { decls = append(decls, coq.FieldDecl{ Name: name.Name, Type: ty, }) } if len(f.Names) == 0 { decls = append(decls, coq.FieldDecl{ Name: """", Type: ty, }) } } return decls }" = true.
-Proof. vm_compute. reflexivity. Qed.
-
-Example O02_body_goose_Ctx_field :
-  has_body func_bodies "goose.Ctx.field"
-    "func(f *ast.Field) coq.FieldDecl"
-    "{ if len(f.Names) > 1 { ctx.futureWork(f, ""multiple fields for same type (split them up)"") return coq.FieldDecl{} } if len(f.Names) == 0 { ctx.unsupported(f, ""unnamed field/parameter"") return coq.FieldDecl{} } return coq.FieldDecl{ Name: f.Names[0].Name, Type: ctx.coqType(f.Type), } }" = true.
-Proof. vm_compute. reflexivity. Qed.
-
-Example O02_body_goose_Ctx_structFields :
-  has_body func_bodies "goose.Ctx.structFields"
-    "func(fs *ast.FieldList) []coq.FieldDecl"
-    "{ var decls []coq.FieldDecl for _, f := range fs.List { if len(f.Names) > 1 { ctx.futureWork(f, ""multiple fields for same type (split them up)"") return nil } if len(f.Names) == 0 { ctx.unsupported(f, ""unnamed (embedded) field"") return nil } ty := ctx.coqType(f.Type) decls = append(decls, coq.FieldDecl{ Name: f.Names[0].Name, Type: ty, }) } return decls }" = true.
-Proof. vm_compute. reflexivity. Qed.
-
-Example O02_body_goose_Ctx_typeDecl :
-  has_body func_bodies "goose.Ctx.typeDecl"
-    "func(doc *ast.CommentGroup, spec *ast.TypeSpec) coq.Decl"
-    "{ if spec.TypeParams != nil { ctx.futureWork(spec, ""generic named type (e.g. no generic structs)"") } switch goTy := spec.Type.(type) { case *ast.StructType: ty := coq.StructDecl{ Name: spec.Name.Name, } addSourceDoc(doc, &ty.Comment) ctx.addSourceFile(spec, &ty.Comment) ty.Fields = ctx.structFields(goTy.Fields) return ty case *ast.InterfaceType: ty := coq.InterfaceDecl{ Name: spec.Name.Name, } addSourceDoc(doc, &ty.Comment) ctx.addSourceFile(spec, &ty.Comment) ty.Methods = ctx.structFields(goTy.Methods) return ty default: if spec.Assign == 0 { return coq.TypeDef{ Name: spec.Name.Name, Type: ctx.coqType(spec.Type), } } else { return coq.AliasDecl{ Name: spec.Name.Name, Type: ctx.coqType(spec.Type), } } } }" = true.
-Proof. vm_compute. reflexivity. Qed.
-
-Example O02_body_goose_Ctx_constSpec :
-  has_body func_bodies "goose.Ctx.constSpec"
-    "func(spec *ast.ValueSpec) coq.ConstDecl"
-    "{ if len(spec.Names) > 1 { ctx.unsupported(spec, ""multiple declarations in one spec (split them up)"") } ident := spec.Names[0] cd := coq.ConstDecl{ Name: ident.Name, AddTypes: ctx.PkgConfig.TypeCheck, } addSourceDoc(spec.Comment, &cd.Comment) if len(spec.Values) == 0 { ctx.unsupported(spec, ""const with no value"") } val := spec.Values[0] cd.Val = ctx.expr(val) if spec.Type == nil { cd.Type = ctx.coqTypeOfType(spec, ctx.typeOf(val)) } else { cd.Type = ctx.coqType(spec.Type) } cd.Val = ctx.expr(spec.Values[0]) return cd }" = true.
-Proof. vm_compute. reflexivity. Qed.
-
-Example O02_body_goose_errorReporter_unsupported :
-  has_body func_bodies "goose.errorReporter.unsupported"
-    "func(n ast.Node, msg string, args ...interface{})"
-    "{ r.prefixed(""unsupported"", n, msg, args...) }" = true.
-Proof. vm_compute. reflexivity. Qed.
-
-Example O02_body_goose_errorReporter_todo :
-  has_body func_bodies "goose.errorReporter.todo"
-    "func(n ast.Node, msg string, args ...interface{})"
-    "{ r.prefixed(""todo"", n, msg, args...) }" = true.
-Proof. vm_compute. reflexivity. Qed.
-
-Example O02_body_goose_errorReporter_futureWork :
-  has_body func_bodies "goose.errorReporter.futureWork"
-    "func(n ast.Node, msg string, args ...interface{})"
-    "{ r.prefixed(""future"", n, msg, args...) }" = true.
-Proof. vm_compute. reflexivity. Qed.
-
-Example O02_body_goose_errorReporter_nope :
-  has_body func_bodies "goose.errorReporter.nope"
-    "func(n ast.Node, msg string, args ...interface{})"
-    "{ r.prefixed(""impossible(go)"", n, msg, args...) }" = true.
-Proof. vm_compute. reflexivity. Qed.
-
-Example O02_body_goose_errorReporter_noExample :
-  has_body func_bodies "goose.errorReporter.noExample"
-    "func(n ast.Node, msg string, args ...interface{})"
-    "{ r.prefixed(""impossible(no-examples)"", n, msg, args...) }" = true.
-Proof. vm_compute. reflexivity. Qed.
-
-Example O02_body_goose_errorReporter_prefixed :
-  has_body func_bodies "goose.errorReporter.prefixed"
-    "func(prefix string, n ast.Node, msg string, args ...interface{})"
-    "{ where := r.fset.Position(n.Pos()) what := r.printGo(n) formatted := fmt.Sprintf(msg, args...) err := &ConversionError{ Category: prefix, Message: formatted, GoCode: what, GooseCaller: getCaller(2), GoSrcFile: where.String(), Pos: n.Pos(), End: n.End(), } panic(gooseError{err: err}) }" = true.
 Proof. vm_compute. reflexivity. Qed.
